@@ -176,7 +176,7 @@ func buildDesc(toks []string, b *wrapBuild, parent int) (interface{}, []string, 
 			return nil, nil, errors.New("type")
 		}
 		return b.done(h, streams.NewReadWriteCloser(r, w)), rest, nil
-	case t == "I" || t == "T":
+	case t == "I" || t == "T" || t == "U":
 		inner, rest, err := buildDesc(rest, b, h)
 		if err != nil {
 			return nil, nil, err
@@ -187,6 +187,13 @@ func buildDesc(toks []string, b *wrapBuild, parent int) (interface{}, []string, 
 		}
 		if t == "I" {
 			return b.done(h, streams.NewSimulatedConnection(c, fakeAddr{}, fakeAddr{})), rest, nil
+		}
+		if t == "U" {
+			// the underlying net.Conn (used for addresses and deadlines only) is itself a wrapper that tracks its closed
+			// state and has been closed already: that must not show in the stream wrapper's own status or Close
+			u := streams.NewNamedConnection(streams.NewSafeConnection(&fakeConn{id: -2}), "u")
+			_ = u.Close()
+			return b.done(h, streams.NewStreamConnection(c, u)), rest, nil
 		}
 		return b.done(h, streams.NewStreamConnection(c, &fakeConn{id: -1})), rest, nil
 	}
@@ -435,7 +442,7 @@ func allDescs(depth int, nextID *int, resVariants []string) []wdesc {
 		tok  string
 		want int
 		res  int
-	}{{"Sc", 0, 0}, {"Ss", 1, 1}, {"Sr", 2, 2}, {"Sw", 3, 3}, {"Nc", 0, 0}, {"Ns", 1, 1}, {"Nr", 2, 2}, {"Nw", 3, 3}, {"I", 1, 0}, {"T", 1, 0}}
+	}{{"Sc", 0, 0}, {"Ss", 1, 1}, {"Sr", 2, 2}, {"Sw", 3, 3}, {"Nc", 0, 0}, {"Ns", 1, 1}, {"Nr", 2, 2}, {"Nw", 3, 3}, {"I", 1, 0}, {"T", 1, 0}, {"U", 1, 0}}
 	for _, d := range inner {
 		for _, u := range unary {
 			if kindOK(d.kind, u.want) {
@@ -530,7 +537,7 @@ func (wrapComp) Gen(r *Rand, tier string, emit func(string)) {
 	}
 	// pairs built from plain, fresh-wrapped and already-safe (shared) readers and writers under several
 	// outer wrappers: every order of {close a half, query/close the pair, query/close the outer wrapper}
-	outers := []string{"", "Ns", "I", "Ss"}
+	outers := []string{"", "Ns", "I", "Ss", "U", "Ns U"}
 	readers := []string{"R%s0", "Sr R%s0", "Nr R%s0", "Sr Sr R%s0"}
 	writers := []string{"R%s1", "Sw R%s1", "Nw R%s1", "Sw Nw R%s1"}
 	if tier == "thorough" {
